@@ -377,7 +377,9 @@ func (e *enumerator) stmt(s ast.Stmt, p Path, depth int, k kont) {
 		run := func(p Path) {
 			p = append(p, Event{Kind: "LOOP", Pos: v.Pos(), Node: v})
 			if v.Cond == nil {
-				body(p, func(p2 Path) { after(append(p2, Event{Kind: "ENDLOOP"})) })
+				// `for { ... }` only ends through break/return: falling out after one iteration is where
+				// the enumeration stops unrolling, not a real continuation (CUT marks such paths)
+				body(p, func(p2 Path) { after(append(append(p2, Event{Kind: "CUT"}), Event{Kind: "ENDLOOP"})) })
 				return
 			}
 			e.cond(v.Cond, p, depth, func(p2 Path, val bool) {
